@@ -1,5 +1,6 @@
 import NasdaqModel.Driver.Sexp
 import NasdaqModel.Spec.SoupLayout
+import NasdaqModel.Model.SoupObj
 namespace NasdaqModel.Driver.SoupD
 open NasdaqModel Sexp Soup
 
@@ -27,6 +28,24 @@ def pktToSexp : Pkt → Sexp
   | .unseqData d => .list [.atom "unseqData", .atom (bytesToHex d)]
   | .debug t => .list [.atom "debug", ofNats t]
 
+def fieldOfAtom : String → Option SoupObj.Field
+  | "user" => some .user | "password" => some .password | "session" => some .session | "sequence" => some .sequence
+  | "session_id" => some .sessionId | "reason" => some .reason | "data" => some .data | "msg" => some .msg
+  | _ => none
+
+def valOfSexp : Sexp → Option SoupObj.Val
+  | .list [.atom "t", s] => do some (.text (← asNats s))
+  | .list [.atom "i", n] => do some (.int (← asInt n))
+  | .list [.atom "r", n] => do some (.reason (← asNat n))
+  | .list [.atom "b", b] => do some (.bytes (← asBytes b))
+  | _ => none
+
+/-- `enc` | `(set <field> <value>)` -/
+def objOpOfSexp : Sexp → Option SoupObj.Op
+  | .atom "enc" => some .toBytes
+  | .list [.atom "set", .atom f, v] => do some (.set (← fieldOfAtom f) (← valOfSexp v))
+  | _ => none
+
 def handle (op : String) (args : List Sexp) : Option String :=
   match op, args with
   | "soup.enc", [p] => do
@@ -42,6 +61,14 @@ def handle (op : String) (args : List Sexp) : Option String :=
   | "soup.layout", [p] => do
       let p ← pktOfSexp p
       some (bytesToHex (Spec.SoupLayout.layout p))
+  | "soup.obj", [p, .list ops] => do
+      -- one packet object over time: what every `to_bytes()` of the history returns
+      let p ← pktOfSexp p
+      let ops ← ops.mapM objOpOfSexp
+      let outs := (SoupObj.run p ops).map fun r => match r with
+        | .ok bs => bytesToHex bs
+        | .error e => s!"err:{e.name}"
+      some ("(" ++ " ".intercalate outs ++ ")")
   | _, _ => none
 
 end NasdaqModel.Driver.SoupD
